@@ -1,6 +1,7 @@
 package simrt
 
 import (
+	"io"
 	"context"
 	"errors"
 	"fmt"
@@ -199,7 +200,14 @@ func (k *Kernel) hook() ErrorHook {
 			k.Stats.Probe("hook_called_writeheader")
 		}
 		if hp.WriteBody != "" {
-			_, _ = w.Write([]byte(hp.WriteBody))
+			switch hp.WriteVia {
+			case "string":
+				_, _ = io.WriteString(w, hp.WriteBody)
+			case "copy":
+				_, _ = io.Copy(w, strings.NewReader(hp.WriteBody))
+			default:
+				_, _ = w.Write([]byte(hp.WriteBody))
+			}
 			k.Stats.Probe("hook_wrote_body")
 		}
 		var out proto.Message
